@@ -151,6 +151,27 @@ def _toplevel_fillers(tree, name):
     return out
 
 
+def _fact_closure(c):
+    """Facts that follow from an established condition: all(<cond(x)> for x in seq) gives the same for-all fact an assert in a
+    loop over seq gives; a conjunction gives its members' facts."""
+    out = []
+    if isinstance(c, T) and c.op == "land":
+        for x in c.args:
+            out.extend(_fact_closure(x))
+    if isinstance(c, T) and c.op == "all" and len(c.args) == 1:
+        m = _unfz(c.args[0])
+        if isinstance(m, T) and m.op == "map" and m.args[2] is None:
+            body = _unfz(m.args[0])
+            depths = [t.args[0] for t in tm.subterms(body) if isinstance(t, T) and t.op in ("bv", "bvi")]
+            if depths:
+                out.append(T("forall", (min(depths), tm._fz(_unfz(m.args[1])), tm.truth(body)), tm.BOOL))
+    return out
+
+
+_OPERATOR_FNS = {"operator." + k: (v, 2) for k, v in {
+    "xor": ast.BitXor, "or_": ast.BitOr, "and_": ast.BitAnd, "add": ast.Add, "sub": ast.Sub, "mul": ast.Mult, "lshift": ast.LShift,
+    "rshift": ast.RShift, "floordiv": ast.FloorDiv, "mod": ast.Mod, "pow": ast.Pow, "concat": ast.Add}.items()}
+_OPERATOR_FNS.update({k.replace("operator.", "operator.__") + "__": v for k, v in list(_OPERATOR_FNS.items())})
 _MUTATORS = ("pop", "popleft", "popitem", "setdefault", "add", "discard", "extendleft", "remove", "clear", "insert")
 
 
@@ -254,7 +275,7 @@ class Evaluator:
             r = self.assume_fn(c)
             if r is not None:
                 return r
-        if not isinstance(c, T) or not self.assumptions:
+        if not isinstance(c, T) or not (self.assumptions or self.assume_fn is not None):
             return c
         if c in self.assumptions:
             return self.assumptions[c]
@@ -466,6 +487,7 @@ class Evaluator:
             if c is False:
                 return True
             fr.facts.append(c)
+            fr.facts.extend(_fact_closure(c))
             return False
         if isinstance(st, ast.Assign):
             v = self.expr(st.value, fr)
@@ -655,8 +677,10 @@ class Evaluator:
             return self.block(st.orelse, fr)
         f1 = fr.fork(c)
         f1.facts.append(c)
+        f1.facts.extend(_fact_closure(c))
         f2 = fr.fork(tm.lnot(c))
         f2.facts.append(tm.lnot(c))
+        f2.facts.extend(_fact_closure(tm.lnot(c)))
         brk = None
         try:
             t1 = self.block(st.body, f1)
@@ -836,6 +860,10 @@ class Evaluator:
     def _bound_length_iter(self, it):
         """A symbolic list whose length the region under analysis fixes (ev.bind[len(list)] = n) is iterated as its n
         elements list[0] .. list[n-1]; reversed(...) and enumerate(...) of such a list likewise."""
+        if isinstance(it, T) and getattr(self, "unroll_sized", False) and (it.op == "sized" or (it.op == "slice" and isinstance(it.args[0], T) and it.args[0].op == "sized")):
+            n = tm.blen(it)
+            if isinstance(n, int) and 0 <= n <= MAX_UNROLL:
+                return [tm.idx(it, i) for i in range(n)]  # the bytes of (a slice of) an input of exactly n bytes
         if not (self.bind and isinstance(it, T)):
             return None
         if it.op == "rev":
@@ -1655,6 +1683,20 @@ class Evaluator:
                    "index": tm.INT, "count": tm.INT, "find": tm.INT, "replace": ty, "rsplit": tm.LIST}.get(meth, tm.ANY)
             if meth == "zfill" and ty == tm.INT:
                 return T("raise", ("AttributeError", "int.zfill"))
+            if self.bind and meth in ("rsplit", "rpartition", "partition", "count") and pos and not kw:
+                # when the obligation fixes the pieces x.split(sep) consists of, the other splitting methods follow from them
+                pieces = self.bind.get(T("m:split", (tm._fz(recv), tm._fz(pos[0])), tm.LIST))
+                if isinstance(pieces, list) and pieces:
+                    sep = pos[0]
+                    empty = b"" if tm.tyof(sep) == tm.BYTES else ""
+                    if meth == "count" and len(pos) == 1:
+                        return len(pieces) - 1
+                    if meth == "rpartition" and len(pos) == 1:
+                        return (tm.join(sep, pieces[:-1]), sep, pieces[-1]) if len(pieces) > 1 else (empty, empty, pieces[0])
+                    if meth == "partition" and len(pos) == 1:
+                        return (pieces[0], sep, tm.join(sep, pieces[1:])) if len(pieces) > 1 else (pieces[0], empty, empty)
+                    if meth == "rsplit" and len(pos) == 2 and pos[1] == 1:
+                        return [tm.join(sep, pieces[:-1]), pieces[-1]] if len(pieces) > 1 else [pieces[0]]
             return T("m:" + meth, (tm._fz(recv),) + tuple(tm._fz(p) for p in pos), rty)
         if meth in ("items", "keys", "values") and isinstance(recv, dict):
             if meth == "items":
@@ -1705,6 +1747,21 @@ class Evaluator:
                     return pos[1]
         if n == "len":
             return tm.length(a0)
+        if n in _OPERATOR_FNS and len(pos) == _OPERATOR_FNS[n][1] and not kw:
+            return self.binop(_OPERATOR_FNS[n][0](), pos[0], pos[1], e)
+        if n == "functools.reduce" and 2 <= len(pos) <= 3 and not kw:
+            seq0 = _concrete_iter(pos[1]) if not isinstance(pos[1], (str, bytes, dict)) else None
+            if seq0 is not None and len(seq0) <= MAX_UNROLL:
+                items = list(seq0)
+                if len(pos) == 3:
+                    acc = pos[2]
+                elif items:
+                    acc = items.pop(0)
+                else:
+                    return T("raise", ("TypeError",))
+                for x in items:
+                    acc = self.call_value(pos[0], [acc, x], {}, e, fr)
+                return acc
         if n == "int.from_bytes":
             en = pos[1] if len(pos) > 1 else kw.get("byteorder", "big")
             if kw.get("signed", False) is not False:
